@@ -32,6 +32,19 @@ CHECKS = {
                  "is regenerated each run. Every exponent 0..1114200 goes through construct/raw view/reconstruct, all pairs "
                  "a+b <= 200 (600) through *, random tuples up to 1e5 through the operation chain.",
          "note": BASE_NOTE},
+ "C07": {"ref": "5/C07", "technique": "Lean 4 proof (walk_last, strict-total-order laws of the documented order, walk = spec) + bounded-exhaustive universe correspondence",
+         "text": "The documented order `Gt` is proved irreflexive, asymmetric, transitive and trichotomous on coefficient "
+                 "functions differing at finitely many monomials; greater_spec shows the overwrite walk started from storage "
+                 "row 0 decides exactly that order; cmpWalk_eq_walk/walk_order_sorted tie the executable model to it. A "
+                 "universe of 60 (150) small polynomials is compared as arrays under all four sort settings (matrices "
+                 "equal the model's; laws re-checked on them), plus random same-degree-heavy pairs and maximum/minimum.",
+         "note": BASE_NOTE + " The identification of the position in glexsort order with a LinearOrder on monomials is by the sortedness theorem of C18; coefficients are compared as rationals."},
+ "C19": {"ref": "5/C19", "technique": "Lean 4 proof (leadWalk_spec via walk_last; isconstant/tonumpy/set_dimensions specs) + model correspondence",
+         "text": "leadWalk_spec: the ascending overwrite walk returns the largest non-zero term or zeros; the executable "
+                 "walk is that walk (leadWalk_eq_walk); isconstant_spec, tonumpy_error_iff, setDimsDrop_zero. lead_*, "
+                 "sortable_proxy (permutation + monotone in (lead exponent, lead coefficient)), argmax/argmin/amax/amin "
+                 "without axis, isconstant, tonumpy, todict, decompose, set_dimensions(1..5) are run against the model.",
+         "note": BASE_NOTE},
 }
 CLAIMED = set(CHECKS)
 NOT_APPLICABLE = {f"C{i:02d}": "check under construction in this session (will be claimed once built)"
